@@ -396,7 +396,7 @@ func ruleFMT4(c *Ctx) {
 
 var fmtVerbSkew = map[string]string{
 	"pp.fmtBytes/default": "fmt falls back to reflection for other verbs on byte slices; tengo has no reflection path (undocumented verbs)",
-	"pp.fmtInteger/%q": "tengo keeps the `v <= utf8.MaxRune` guard of the fmt it was ported from (the property lists %q on non-code-point ints as version skew)",
+	"pp.fmtInteger/%q":    "tengo keeps the `v <= utf8.MaxRune` guard of the fmt it was ported from (the property lists %q on non-code-point ints as version skew)",
 }
 
 var _ = types.Typ
